@@ -280,12 +280,13 @@ mk('C10', ['BasicProofs'], [lifted('C10_online','BasicProofs','C10_online','onli
    lifted('C10_known','BasicProofs','C10_known','max_n known: finalize(k) is a no-op iff k = max_n = n; state unchanged in every case'),
    lifted('C10_reject','BasicProofs','C10_reject','every other call: ValueError if k < 1 else RuntimeError, state unchanged'),
    lifted('C10_next_endforward','BasicProofs','C10_next_endforward','after a successful finalisation in the forward loop the next action is EndForward')])
-mk('C11', ['SchedProofs','UsesProofs','ExecBudget','RevConv','RevBridge4','DiskUses','HRevUses'], [lifted('C11_uses_never_raises','SchedProofs','uses_never_raises','uses_storage_type never raises, for every StorageType member, in every state'),
+mk('C11', ['SchedProofs','UsesProofs','ExecBudget','RevConv','RevBridge4','DiskUses','HRevUses','RevUses0'], [lifted('C11_uses_never_raises','SchedProofs','uses_never_raises','uses_storage_type never raises, for every StorageType member, in every state'),
    lifted('C11_touch_implies_uses','UsesProofs','touch_implies_uses','if an emitted action writes a checkpoint to RAM / DISK or copies / moves one from or to it, uses_storage_type of that storage is True: every state of the extracted objects of None, SingleMemory, SingleDisk, TwoLevel, Multistage, Mixed (well_built = counts stored in the object are those of its labels / storage is a checkpoint storage); the Revolve family is excluded from well_built (see the next two theorems)'),
    lifted('C11_revolve_touch_uses','ExecBudget','revolve_touch_uses','class Revolve, on its (error-free) runs: every yielded action that writes to / copies or moves from or to RAM or DISK finds uses_storage_type of that storage True in the observation taken right after it -- RAM needs snapshots_in_ram > 0 (the budget of the run), DISK is never touched'),
    lifted('C11_disk_touch_uses','DiskUses','disk_touch_uses','DiskRevolve and PeriodicDiskRevolve with at least one RAM snapshot (snapshots_in_ram = 0 is accepted for max_n = 1 only), every history (requests, finalize calls, Run loops in any order): RAM and DISK are reported as used at every observation, so whatever an action touches is reported as used'),
    lifted('C11_hrev_touch_uses','HRevUses','hrev_touch_uses','HRevolve, snapshots_in_ram >= 1 and snapshots_on_disk >= 0, every history: a touched storage is reported as used -- with a disk slot RAM and DISK are both reported; without one the op list is a memory-only block (the infinite column of optp[1]) and the converter never names DISK'),
-   lifted('C11_touch_needs_budget_partial','ExecBudget','run_touch','PARTIAL (the three disk classes with snapshots_in_ram = 0, accepted for max_n = 1 only): class-independent fact about the reference executor -- on any error-free monitored run the store sizes stay within the declared budgets and an action touching RAM / DISK is accepted only if that budget is positive; error-freeness of those runs is not proved, so touched => uses rests on correspondence + oracle')])
+   lifted('C11_revfam_no_ram_touch_uses','RevUses0','revfam_no_ram_touch_uses','the remaining corner of the Revolve family -- DiskRevolve, PeriodicDiskRevolve, HRevolve with snapshots_in_ram = 0, which the constructor accepts for max_n = 1 only: the op list is a single adjoint step and no yielded action touches RAM or DISK, under every history'),
+   lifted('C11_touch_needs_budget','ExecBudget','run_touch','(auxiliary, class-independent) on any error-free monitored run the store sizes stay within the declared budgets and an action touching RAM / DISK is accepted only if that budget is positive')])
 mk('C13', ['TLInv','TLSweep','Online','TLStorage','HRevUses'], [
    lifted('C13_sweep_pattern','TLSweep','twolevel_sweep','FIRST CLAUSE, extracted model, every period >= 1, every binomial_snapshots, both storages, both trajectories, every number j of requests before finalisation: the observations are exactly Forward(i P, (i+1) P, write_ics, DISK) with n = (i+1) P, r = 0, max_n unknown, not exhausted, for i = 0 .. j-1'),
    """(* the whole TwoLevel run on the extracted model *)
